@@ -2,7 +2,8 @@ import CifModel.Model.Types
 import CifModel.Gen.CharClass
 /-
   CifModel.Model.Chars — the scanner's character classification (parser.c: INIT_V2_SCANNER / SET_V1 / CLASS_OF /
-  METACLASS_OF), hand-written, with link theorems to the tables regenerated from the sources (Gen.CharClass).
+  METACLASS_OF), hand-written; the link theorems to the tables regenerated from the sources (Gen.CharClass) are in
+  Lemmas/CharsLink.lean.
 
   Classes and metaclasses are inductive types here; the numeric codes of the C (`#define WS_CLASS 2` …) enter only
   through `Cls.code` / `Meta.code`, which are defined FROM the generated constants.  So a harmless renumbering of the
@@ -99,47 +100,12 @@ def isLead (c : CU) : Bool := c / 1024 == 54
 theorem forall_lt_of_range_all {n : Nat} {p : Nat → Bool} (h : (List.range n).all p = true) : ∀ c, c < n → p c = true :=
   fun c hc => List.all_eq_true.mp h c (List.mem_range.mpr hc)
 
-theorem charTableMax_link : Gen.CharClass.charTableMax = 160 := by decide
-
-/-- every entry of the CIF 2.0 class table -/
-theorem classV2_link : ∀ c, c < 160 → Gen.CharClass.classV2[c]? = some (classOf .cif2 c).code := by
-  have h := forall_lt_of_range_all (n := 160) (p := fun c => Gen.CharClass.classV2[c]? == some (classOf .cif2 c).code) (by decide +kernel)
-  intro c hc
-  simpa using h c hc
-
-/-- every entry of the CIF 1.1 class table -/
-theorem classV1_link : ∀ c, c < 160 → Gen.CharClass.classV1[c]? = some (classOf .cif1 c).code := by
-  have h := forall_lt_of_range_all (n := 160) (p := fun c => Gen.CharClass.classV1[c]? == some (classOf .cif1 c).code) (by decide +kernel)
-  intro c hc
-  simpa using h c hc
-
-theorem tableLength_link : Gen.CharClass.classV2.length = 160 ∧ Gen.CharClass.classV1.length = 160 := by decide +kernel
-
-/-- `CLASS_OF` above the table -/
-theorem classHigh_link : (classOf .cif2 160).code = Gen.CharClass.classHighV2 ∧ (classOf .cif1 160).code = Gen.CharClass.classHighV1 := by
-  decide +kernel
-
 theorem classOf_high (dia : Dialect) (c : CU) (h : 160 ≤ c) : classOf dia c = classOf dia 160 := by
   have : ¬ c < 160 := Nat.not_lt.mpr h
   simp [classOf, this]
 
-/-- the metaclass table, in both modes, for every class the tables can hold -/
-theorem meta_link : ∀ k ∈ Cls.all, Gen.CharClass.metaV2[k.code]? = some (metaOfCls k).code
-                                ∧ Gen.CharClass.metaV1[k.code]? = some (metaOfCls k).code := by
-  have h : Cls.all.all (fun k => Gen.CharClass.metaV2[k.code]? == some (metaOfCls k).code
-                              && Gen.CharClass.metaV1[k.code]? == some (metaOfCls k).code) = true := by decide +kernel
-  intro k hk
-  have := List.all_eq_true.mp h k hk
-  simpa using this
-
-theorem Cls.mem_all (k : Cls) : k ∈ Cls.all := by cases k <;> decide
-
-/-- distinct classes have distinct codes (so comparing classes is comparing codes, as the C does) -/
-theorem Cls.code_injective : ∀ k ∈ Cls.all, ∀ k' ∈ Cls.all, k.code = k'.code → k = k' := by
-  have h : Cls.all.all (fun k => Cls.all.all (fun k' => k.code != k'.code || k == k')) = true := by decide +kernel
-  intro k hk k' hk' e
-  have := List.all_eq_true.mp (List.all_eq_true.mp h k hk) k' hk'
-  simp [e] at this
-  exact this
+/- The link theorems against the regenerated tables (`classV2_link`, `classV1_link`, `classHigh_link`, `meta_link`,
+   `tableLength_link`, `Cls.code_injective`) live in Lemmas/CharsLink.lean, so that the model driver still builds — and the
+   search for a concrete failing input can run — when a table in the sources changes. -/
 
 end CifModel.Model.Chars
